@@ -1227,7 +1227,10 @@ func runC11(c *Ctx) error {
 		c.Stats.Sample(map[string]interface{}{"stream": cs.Stream, "blocks": len(cs.Blocks), "events": len(cs.Events),
 			"final_best_height": last.Height, "reorganisations": st.reorgs, "to_shorter_chain": st.shorter, "justifications": st.justified})
 	}
-	c.Stats.Rule = "a case is a block tree (trunk of 0..6 blocks plus up to 15 more, real signed coinbase-only blocks, 4-key federation, epoch length 4) and an event list for a fresh node on LevelDB in a child process: every block delivered in an arbitrary order (creation order, random topological, held-back blocks, uniform shuffle; malformed stream: wrongly signed blocks, repeated deliveries, votes for non-checkpoints and from arbitrary sources) and 0..5 justification attempts of three real verification messages each from keys 1..3 after the target is connected; a fixed corpus (shorter-chain reorganisation with and without finalization, hash tie-break, orphans, mid-epoch fork) runs first; distinct = distinct (tree, event list); non-trivial = at least one reorganisation (best block moved to a block that does not descend from the previous best); oracle per step on implementation outputs only: best = harness's own fork choice, index = ancestry of best, InMainChain = ancestor-or-self of best"
+	c.Stats.Rule = "a case is a block tree (trunk of 0..6 blocks plus up to 15 more, real signed coinbase-only blocks, 4-key federation, epoch length 4; 35% of the epoch-boundary blocks carry a sup link signed by 1..3 keys) and an event list for a fresh node on LevelDB in a child process: every block delivered in an arbitrary order (creation order, random topological, held-back blocks, uniform shuffle; malformed stream: wrongly signed blocks, repeated deliveries, votes for non-checkpoints and from arbitrary sources) and 0..5 justification attempts of real verification messages from keys 1..3 (sometimes 2 keys, or with key 0) after the target is connected; a vote that the harness predicts to move the best chain is withheld (the pinned node deadlocks on it) except for 12% of the attempts, where the deadlock itself is the expected observation; early-votes stream: votes before their target block (cached by the node, oracle only); a fixed corpus (shorter-chain reorganisation by sup link, by votes, with finalization, hash tie-break, orphans, mid-epoch fork, early vote) runs first; distinct = distinct (tree, event list); non-trivial = at least one reorganisation (best block moved to a block that does not descend from the previous best); oracle per step on implementation outputs only: best = harness's own fork choice over connected valid blocks below the last finalized checkpoint, index = ancestry of best, InMainChain = ancestor-or-self of best"
+	if c.Cases.Len() == 0 { // a replay of an oracle-only case: keep the case file well-typed
+		c.Cases.Add("(@nil (option obs))", "(@nil (option obs))")
+	}
 	c.Cases.Shard = 25
 	return c.Cases.Write(c.Out, "From Coq Require Import List NArith. Import ListNotations. Open Scope N_scope.\nFrom C11 Require Import Model Run.", "list (option obs)", "obs_list_eqb")
 }
